@@ -5,6 +5,7 @@ from props import common
 
 THM = "NextestModel.Thm.C05"
 GEN = ["tables"]
+GEN_GROUPS = ["setdef"]
 TRUSTED = ["model: Model/Syntax (parser), Model/Expr (compile, evaluation, package sets), Model/Glob (glob semantics, documented subset)",
            "regex truth and validity are inputs (asked from the `regex` crate directly, not through nextest)",
            "guppy graph construction; the model's graph is the generator's own adjacency list"]
